@@ -36,13 +36,21 @@ def check(ctx):
             T.append({"space": "T", "atoms": a, "proj": proj, "par": par, "pbc": False})
     S = [{"space": "S", "atoms": a, "proj": proj, "rep": list(rep)} for a, proj, rep in itertools.product(
         ("A1", "A2") if q else ("A0", "A1", "A2", "A3"), ("infinite", "finite"), ((2, 1, 1), (1, 2, 1), (2, 2, 1), (1, 1, 2), (2, 1, 2)))]
+    # the same translation and supercell spaces on grids whose x and y pixel sizes differ
+    T += [dict(t, aniso=True) for t in T if t["pbc"] and (not q or t["atoms"] in ("A1", "A2"))]
+    S += [dict(s_, aniso=True) for s_ in S if not q or s_["rep"] in ([2, 1, 1], [1, 2, 1], [2, 2, 1])]
     M = [{"space": "M", "atoms": a, "par": par} for a, par in itertools.product(("A0", "A1", "A2", "A3"), ("lobato", "kirkland"))]
     ctx.run(T, "run_case", rule="T: per (atoms, projection, parametrization) all 25 whole-pixel shift pairs", space="T translations")
     ctx.run(S, "run_case", rule="S: per (atoms, projection, repetition) three constructions compared", space="S supercells")
     ctx.run(M, "run_case", rule="M: 9 sub-pixel shifts", space="M sub-pixel means")
 
 
+_ANISO = [False]
+
+
 def gpts_for(a):
+    if _ANISO[0]:  # unequal pixel sizes in x and y: 4 A / 20 and 3 A / 12 (A0: 4 A / 16 and 4 A / 12)
+        return (16, 12) if a == "A0" else (20, 12)
     return (12, 12) if a == "A0" else (16, 12)
 
 
@@ -58,6 +66,7 @@ def run_case(c):
     from mc.compare import err
 
     viol, worst, tr = [], 0.0, 0
+    _ANISO[0] = bool(c.get("aniso"))
 
     def bad(key, msg):
         if sum(1 for v in viol if v["key"] == key) < 2:
